@@ -1809,9 +1809,15 @@ class Rule(metaclass=LogicalType):
                 return cls.post_validate(value, context)
 
             try:
-                value = context.transformer.apply(
-                    value, cls.__origin__, func=cls.__origin_transformer__
-                )
+                if cls.__args_parser__ and isinstance(value, (list, tuple)) \
+                        and issubclass(cls.__origin__, (set, frozenset)):
+                    # Set[T] from an array: the elements are parsed first and collected afterwards
+                    # (raw elements may be unhashable, e.g. the lists a JSON array of tuples consists of)
+                    pass
+                else:
+                    value = context.transformer.apply(
+                        value, cls.__origin__, func=cls.__origin_transformer__
+                    )
             except Exception as e:
                 error = exc.ParseError(origin_exc=e)
                 # if type cannot convert, the following args and constraints cannot validate
